@@ -2,6 +2,8 @@ package definition
 
 import (
 	"encoding/json"
+	"maps"
+	"slices"
 
 	"github.com/nyaruka/gocommon/i18n"
 	"github.com/nyaruka/gocommon/jsonx"
@@ -57,9 +59,11 @@ func (t languageTranslation) setTextArray(uuid uuids.UUID, property string, tran
 }
 
 func (t languageTranslation) Enumerate(callback func(uuids.UUID, string, []string)) {
-	for uuid, it := range t {
-		for property, texts := range it {
-			callback(uuid, property, texts)
+	// enumerate in a stable order so that anything derived from this is too
+	for _, uuid := range slices.Sorted(maps.Keys(t)) {
+		it := t[uuid]
+		for _, property := range slices.Sorted(maps.Keys(it)) {
+			callback(uuid, property, it[property])
 		}
 	}
 }
@@ -78,6 +82,7 @@ func (l localization) Languages() []i18n.Language {
 	for lang := range l {
 		languages = append(languages, lang)
 	}
+	slices.Sort(languages) // so that anything derived from this has a stable order
 	return languages
 }
 
